@@ -438,6 +438,29 @@ def random_inputs(R, d, n):
                     out.append((sib + tail).encode('utf-8'))
                     out.append(('a' + sib + tail).encode('utf-8'))
                 break
+    # near misses of every pattern: each proper prefix of a sample (an input ending mid-token) and the sample with one byte
+    # replaced at the start, in the middle and at the end, alone and followed by text the definition knows
+    tail_ = next((b for b in out if b), b'a')[:6]
+    for a in asts:
+        try:
+            smp = a.sample(R).encode('utf-8')
+        except Exception:
+            continue
+        if len(smp) < 2:
+            continue
+        cuts = list(range(1, len(smp))) if len(smp) <= 24 else sorted(set([1, 2, 7, 8, 9, 15, 16, 17, len(smp) // 2, len(smp) - 2, len(smp) - 1]))
+        for k in cuts:
+            pre = smp[:k]
+            if d.utf8 and not is_valid_utf8(list(pre)):
+                continue
+            out.append(pre)
+            out.append(pre + b' ' + tail_)
+        for k in sorted(set([0, len(smp) // 2, len(smp) - 1, min(8, len(smp) - 1), min(9, len(smp) - 1)])):
+            if smp[k] < 0x80:
+                mut = smp[:k] + (b'~' if smp[k:k + 1] != b'~' else b'!') + smp[k + 1:]
+                if not d.utf8 or is_valid_utf8(list(mut)):
+                    out.append(mut)
+                    out.append(mut + tail_)
     out += dictionary_inputs(R, d, out)
     return out
 
